@@ -740,6 +740,9 @@ class ConcurrentVector {
     if (curSize < n) {
       return grow_by(n - curSize);
     }
+    if (n == 0) {
+      return begin();
+    }
     return {this, n - 1, bucketAndSubIndex(n - 1)};
   }
 
@@ -754,6 +757,9 @@ class ConcurrentVector {
     size_t curSize = size_.load(std::memory_order_relaxed);
     if (curSize < n) {
       return grow_by(n - curSize, t);
+    }
+    if (n == 0) {
+      return begin();
     }
     return {this, n - 1, bucketAndSubIndex(n - 1)};
   }
